@@ -184,4 +184,50 @@ theorem build_import_lemma (C : Comp St Tx) (cfg : Cfg) (eR eU : Hash)
       show C.root (C.finalise (isForked cfg.eip158 blk.header.number) fs.1) = blk.header.root
       rw [hroot, s10]
 
+
+/-! ### the miner's loop with skipped candidates -/
+
+/-- the gas pool only has to be large enough: with more gas in the pool a message that could be applied is applied with the
+    same effects, and the surplus stays in the pool (`GasPool.SubGas` is the only reader). -/
+def PoolMono (C : Comp St Tx) : Prop :=
+  ∀ cfg ctx st p p' tx r, C.applyMsg cfg ctx st p tx = .ok r → p ≤ p' →
+    C.applyMsg cfg ctx st p' tx = .ok { r with pool := r.pool + (p' - p) }
+
+theorem applyTransaction_poolMono (C : Comp St Tx) (hm : PoolMono C) (cfg : Cfg) (h : Header) (a : Option Addr) (st : St)
+    (p p' used : Nat) (tx : Tx) (st1 : St) (rc : Receipt) (p1 used1 : Nat) (hp : p ≤ p')
+    (ha : applyTransaction C cfg h a st p used tx = .ok (st1, rc, p1, used1)) :
+    applyTransaction C cfg h a st p' used tx = .ok (st1, rc, p1 + (p' - p), used1) := by
+  unfold applyTransaction at ha ⊢
+  cases hr : C.applyMsg cfg (ctxOf h a) st p tx with
+  | error e => rw [hr] at ha; cases ha
+  | ok r =>
+    rw [hr] at ha
+    rw [hm cfg _ st p p' tx r hr hp]
+    simp only [Except.ok.injEq, Prod.mk.injEq] at ha ⊢
+    obtain ⟨e1, e2, e3, e4⟩ := ha
+    exact ⟨e1, e2, by rw [e3], e4⟩
+
+/-- the transactions the miner committed, applied one after the other from a pool at least as large (the importer's: it never
+    attempted the skipped ones), give the miner's state, receipts and gas. -/
+theorem commitTxs_replay (C : Comp St Tx) (hm : PoolMono C) (cfg : Cfg) (h : Header) (a : Option Addr) (skipPool : Nat → Tx → Nat)
+    (hs : ∀ p tx, skipPool p tx ≤ p) (cands : List Tx) (st : St) (p p' used : Nat) (hp : p ≤ p') :
+    ∃ pf, applyTxs C cfg h a st p' used (commitTxs C cfg h a skipPool st p used cands).included =
+      .ok ((commitTxs C cfg h a skipPool st p used cands).st, (commitTxs C cfg h a skipPool st p used cands).receipts, pf,
+           (commitTxs C cfg h a skipPool st p used cands).used) := by
+  induction cands generalizing st p p' used with
+  | nil => exact ⟨p', rfl⟩
+  | cons tx rest ih =>
+    simp only [commitTxs]
+    cases ha : applyTransaction C cfg h a st p used tx with
+    | error e =>
+      simp only []
+      exact ih st (skipPool p tx) p' used (Nat.le_trans (hs p tx) hp)
+    | ok r =>
+      obtain ⟨st1, rc, p1, used1⟩ := r
+      simp only []
+      have ha' := applyTransaction_poolMono C hm cfg h a st p p' used tx st1 rc p1 used1 hp ha
+      obtain ⟨pf, hpf⟩ := ih st1 p1 (p1 + (p' - p)) used1 (Nat.le_add_right _ _)
+      refine ⟨pf, ?_⟩
+      simp only [applyTxs, ha', hpf]
+
 end Aqv.BlockImport
